@@ -1,6 +1,7 @@
 package p07
 
 import (
+	"encoding/json"
 	"fmt"
 	"sort"
 	"strings"
@@ -360,8 +361,47 @@ func (sc *sprintCheck) checkRun(run flows.Run) {
 				}
 			}
 		}
-		if runFailedHere && !failedToPick && !strings.Contains(otherFailure, "router exit") && !strings.Contains(otherFailure, "routing") {
-			// the run failed at this step for a reason that is not the router's (child run failed, …): the router never got to decide
+		if runFailedHere && !failedToPick {
+			// the run failed at this step although its router was able to pick a category. The engine has three reasons of
+			// its own to end a run where it stands (its child failed, the step limit, the flow asset is gone); then the
+			// router never got to decide. Any other failure at a node whose definition prescribes an exit is the router
+			// not taking it.
+			if otherFailure == "" {
+				// a failure logged without a step (a parent that is resumed when its child ends)
+				before := 0
+				if snap, ok := rec.RunsBefore[run.UUID()]; ok {
+					before = snap.EventsLen
+				}
+				if evs := run.Events(); before <= len(evs) {
+					for _, e := range evs[before:] {
+						if e.Type() == "failure" {
+							var m struct {
+								Text string `json:"text"`
+							}
+							b, _ := json.Marshal(e)
+							json.Unmarshal(b, &m)
+							otherFailure = m.Text
+						}
+					}
+				}
+			}
+			legit := false
+			for _, k := range []string{"child run for flow", "maximum number of steps", "missing flow asset", "maximum number of resumes"} {
+				if strings.Contains(otherFailure, k) {
+					legit = true
+				}
+			}
+			if legit {
+				res.Count("skip.run_failed_for_other_reason", 1)
+				res.Seen("other_failures", errClass(otherFailure))
+				continue
+			}
+			if node.Router != nil {
+				res.Count("clause.failed_at_router_node", 1)
+				viol("run-failed-at-router|"+errClass(otherFailure), fmt.Sprintf("the run failed at a node whose router is defined to pick an exit: %s", otherFailure),
+					map[string]any{"node": node.UUID, "step_index": i, "failure": otherFailure, "resume_type": rec.ResumeType})
+				continue
+			}
 			res.Count("skip.run_failed_for_other_reason", 1)
 			res.Seen("other_failures", errClass(otherFailure))
 			continue
